@@ -112,6 +112,13 @@ pub fn run_c11(seed: u64, run: u64, config: &str, stats: &mut Stats) -> (Vec<Vio
             }
             local.mark("histories", digest);
             local.mark("abstract_pool_states", w.exec.model.abstract_state());
+            for a in &w.exec.abstract_states {
+                local.mark("abstract_pool_states", *a);
+            }
+            for a in &w.exec.arrival_orders {
+                local.mark("arrival_order_patterns", *a);
+            }
+            local.mark("cross_stream_interleavings", w.exec.interleaving.finish());
             if let Err(f) = fin {
                 // every payload the senders expect back
                 v.push(Violation {
